@@ -742,7 +742,11 @@ def to_hashable(  # noqa: C901, PLR0911, PLR0912
 
     # Handle numpy arrays
     if "numpy" in sys.modules and isinstance(obj, sys.modules["numpy"].ndarray):
-        return (m, tp, (obj.shape, obj.dtype.str, tuple(obj.flatten())))
+        if obj.dtype == object:  # elements can be unhashable (lists, dicts, arrays, ...)
+            items = _hashable_iterable(obj.flatten(), fallback_to_pickle)
+        else:
+            items = tuple(obj.flatten())
+        return (m, tp, (obj.shape, obj.dtype.str, items))
 
     # Handle pandas Series and DataFrames
     if "pandas" in sys.modules:
